@@ -2,6 +2,8 @@
 ``for n in range(M): pass`` with the lemma statement as its invariant makes pyvc generate the
 base case (inv_init) and the induction step (inv_step); the statement at n == M is the
 function's postcondition.  Nothing here is repository code."""
+from speckit.dsp import polynomial_detrend
+from speckit.noise import _numba_lfilter_cascade
 
 
 def lemma_sum_shift(x, c, M):
@@ -165,3 +167,37 @@ def lemma_trend_invariance_poly3(x1, x2, y, w, starts, K, L, omega, Q, B0, B1, B
     for k in range(K):
         lemma_invariant_dft_poly3(x1, x2, w, starts, k, L, omega, Q, B0[k], B1[k], B2[k])
     return None
+
+
+
+# ---- C19: mean removal is idempotent and annihilates constants (lemmas over polynomial_detrend's contract) -------------
+
+
+def lemma_detrend0_idempotent(x):
+    y = polynomial_detrend(x, 0)
+    z = polynomial_detrend(y, 0)
+    return (y, z)
+
+
+def lemma_detrend0_annihilates_constants(x, c):
+    lemma_sum_shift(x, c, len(x))
+    y = polynomial_detrend(x, 0)
+    return y
+
+
+
+# ---- C17: filtering a record in two blocks with the carried state equals filtering it at once (one section) -----------
+
+
+def lemma_chunking_one_section(x, a_coeffs, b_coeffs, z0, a):
+    n = len(x)
+    zA = z0.copy()
+    zB = z0.copy()
+    Y, zs = _numba_lfilter_cascade(x, a_coeffs, b_coeffs, zA)
+    y1, z1 = _numba_lfilter_cascade(x[:a], a_coeffs, b_coeffs, zB)
+    y2, z2 = _numba_lfilter_cascade(x[a:], a_coeffs, b_coeffs, z1)
+    for j in range(a):
+        pass
+    for j in range(n - a):
+        pass
+    return (Y, zs, y1, y2, z2)
